@@ -589,6 +589,10 @@ class CFG:
             out.extend(self._expanded_edge_facts(e))
             for f in e.facts():
                 out.append(f)
+                if _depth < 2:
+                    sn = self._sentinel(e.src, f)
+                    if sn is not None and len(sn) == 1:
+                        out.extend(self.facts_at(sn[0], _depth + 1))
                 if _depth < 2 and isinstance(f.node, ast.Name) and f.op is None and f.text == f.node.id:
                     src = e.src
                     defs = self.reaching_defs(src, f.node.id)
@@ -606,6 +610,46 @@ class CFG:
                         if not any(isinstance(x, ast.Call) for x in ast.walk(v) if not (isinstance(x, ast.Call) and isinstance(x.func, ast.Name) and x.func.id in ('len', 'isinstance', 'tuple', 'int'))) and \
                                 all({d.id for d in self.reaching_defs(defs[0], nm)} == {d.id for d in self.reaching_defs(src, nm)} for nm in names):
                             out.extend(implied(v, f.pol))
+        return out
+
+    def _sentinel(self, src, f):
+        """`x is None` / `x is not None` on a local whose reaching definitions are all either None or something that certainly is not
+        None (a display, a literal, a constructor call): the definitions of the tested kind - the test merely repeats which of them
+        ran.  None when the fact is not of that kind."""
+        if f.op != 'is' or f.left is None or f.right is None:
+            return None
+        a, b = f.left, f.right
+        if isinstance(a, ast.Constant) and a.value is None and isinstance(b, ast.Name):
+            nm = b.id
+        elif isinstance(b, ast.Constant) and b.value is None and isinstance(a, ast.Name):
+            nm = a.id
+        else:
+            return None
+        defs = self.reaching_defs(src, nm)
+        if not defs:
+            return None
+        kinds = []
+        for d in defs:
+            v = self.def_value(d, nm) if d.ast is not None else None
+            if v is None:
+                return None
+            if isinstance(v, ast.Constant) and v.value is None:
+                kinds.append((d, True))
+            elif isinstance(v, (ast.Tuple, ast.List, ast.Dict, ast.Set, ast.JoinedStr, ast.ListComp, ast.DictComp, ast.SetComp)) or \
+                    (isinstance(v, ast.Constant) and v.value is not None) or \
+                    (isinstance(v, ast.Call) and (norm(v.func).split('.')[-1][:1].isupper() or norm(v.func) in ('list', 'dict', 'tuple', 'bytearray', 'bytes', 'set', 'str', 'int', 'float', 'bool'))):
+                kinds.append((d, False))
+            else:
+                return None
+        return [d for d, is_none in kinds if is_none == f.pol]
+
+    def sentinel_keys_at(self, n):
+        """keys of the dominating facts that are None-sentinel tests fully explained by the definitions of the local"""
+        out = set()
+        for e in self.dominating_edges(n):
+            for f in e.facts():
+                if self._sentinel(e.src, f) is not None:
+                    out.add(f.key())
         return out
 
     def _expanded_edge_facts(self, e):
